@@ -21,6 +21,8 @@ var immConstructions = []immCons{
 	{"freeze-array", `x := freeze([a, b, [a, 7], "s"])`, false, true, 0},
 	{"immutable-map", `x := immutable({p: a, q: b, r: [a, 7]})`, true, false, 0},
 	{"freeze-map", `x := freeze({p: a, q: b, r: [a, 7]})`, true, true, 0},
+	{"freeze-of-immutable", `x := freeze(immutable([[a, 7], b, "s"]))`, false, true, 0},
+	{"freeze-map-of-immutable", `x := freeze({p: immutable([{k: a}, "tail"]), q: b})`, true, true, 0},
 	{"freeze-nested-map", `x := freeze([a, b, {k: [a, 7]}, "s"])`, false, true, 0},
 	{"module-export-array", `x := import("m")`, false, false, 1},
 	{"builtin-module-table", `x := import("bm")`, true, false, 2},
@@ -44,6 +46,8 @@ var arrOps = []string{
 	`y := x[2]; if is_array(y) { y[0] = v } else { y.k = v }`,
 	`f := func(z) { z[1] = v }; f(x)`,
 	`x[2][1] = v`,
+	`x[0][0] = v`,
+	`y := x[0]; y[1] = v`,
 	`y := [x]; y[0][0] = v`,
 	`y := {w: x}; y.w[1] = v`,
 }
@@ -58,6 +62,8 @@ var mapOps = []string{
 	`y := x.r; y[0] = v`,
 	`f := func(z) { z.q = v }; f(x)`,
 	`x.r[1] = v`,
+	`x.p[0].k = v`,
+	`y := x.p; y[0].z = v`,
 	`y := [x]; y[0].p = v`,
 	`y := append([], x); y[0].q = v`,
 }
@@ -80,6 +86,12 @@ func expectedX(c immCons, a, b int64) tengo.Object {
 		return &tengo.ImmutableMap{Value: map[string]tengo.Object{"p": ia, "q": ib, "r": &tengo.Array{Value: inner()}}}
 	case "freeze-map":
 		return &tengo.ImmutableMap{Value: map[string]tengo.Object{"p": ia, "q": ib, "r": &tengo.ImmutableArray{Value: inner()}}}
+	case "freeze-of-immutable":
+		return &tengo.ImmutableArray{Value: []tengo.Object{&tengo.ImmutableArray{Value: inner()}, ib, &tengo.String{Value: "s"}}}
+	case "freeze-map-of-immutable":
+		return &tengo.ImmutableMap{Value: map[string]tengo.Object{
+			"p": &tengo.ImmutableArray{Value: []tengo.Object{&tengo.ImmutableMap{Value: map[string]tengo.Object{"k": ia}}, &tengo.String{Value: "tail"}}},
+			"q": ib}}
 	case "freeze-nested-map":
 		return &tengo.ImmutableArray{Value: []tengo.Object{ia, ib,
 			&tengo.ImmutableMap{Value: map[string]tengo.Object{"k": &tengo.ImmutableArray{Value: inner()}}}, &tengo.String{Value: "s"}}}
